@@ -3,7 +3,7 @@
 META = dict(
     engine="E-CONC",
     technique="Lean 4 interleaving LTS of the relay evidence (validate / get / add / set / respond per relay, iterator-read / seal of the claim sender, at the code's lock granularity; bloom filters as shared heap objects) with kernel-checked counterexample schedules and an all-schedules invariant proof for the repaired (single critical section) design + exhaustive schedule enumeration against the real Validate / GetEvidence / AddProof / SetEvidence / EvidenceIterator / SealEvidence, and free-running real HandleRelay goroutines (thorough: under the race detector)",
-    level_text="Kernel-checked: concrete schedules of the code as it is that store an identical proof twice (dup_under_interleaving), lose a stored and answered relay by a concurrent write-back (lost_update), lose relays answered before the seal because the claim sender writes back the copy it read earlier (responded_before_seal_not_recorded), serve a relay whose proof is dropped after the seal (store_after_seal); the allowance bound n <= max does hold for every schedule (within_limit_all_schedules); one relay / claim sender at a time is exact (sequential_ok); the repaired design is exact for ALL schedules, by induction over arbitrary step lists (repaired_exact_all_schedules). Every schedule of two relays (+ claim sender) and, in the thorough tier, of three relays is executed on the real functions and the final evidence, per-relay outcome and response/seal order are compared with the model.",
+    level_text="Kernel-checked: concrete schedules of the code as it is that store an identical proof twice (dup_under_interleaving), lose a stored and answered relay by a concurrent write-back (lost_update), lose relays answered before the seal because the claim sender writes back the copy it read earlier (responded_before_seal_not_recorded), serve a relay whose proof is dropped after the seal (store_after_seal); the allowance bound n <= max does hold for every schedule (within_limit_all_schedules); one relay / claim sender at a time is exact (sequential_ok); the repaired design is exact for ALL schedules, by induction over arbitrary step lists (repaired_exact_all_schedules); the evidence store's LRU+DB layer is observable as coded (eviction_is_observable: a DB read into a full cache drops an unflushed evidence) and provably unobservable for every capacity and operation sequence once reads go through the flush-aware helper (cache_unobservable_when_repaired). Every schedule of two relays (+ claim sender) and, in the thorough tier, of three relays is executed on the real functions and the final evidence, per-relay outcome and response/seal order are compared with the model.",
     level_note="PARTIAL: the LTS has the code's lock granularity for storing but treats Relay.Validate's evidence part as one atomic step (coarser = fewer behaviours, so every counterexample is real); word-level data races (two appends into one backing array when cap > len, concurrent bloom bit sets) and the Go scheduler are not modelled - the race detector run reports them (thorough tier). Bloom tests are exact membership in the model (the harness picks proofs without false positives). No hook is used: HandleRelay has no add-only seam for a yield point, so schedules drive the exported sub-steps HandleRelay/SendClaimTx call, in the model's order. Trusted: Lean kernel; axioms propext, Classical.choice, Quot.sound; Go harness and driver parser.",
 )
 
@@ -12,16 +12,16 @@ def run(ctx):
     ctx.lean_proofs("Props.C34")
     ctx.rule("c34: every interleaving of the per-thread step sequences of the model (relay: validate,get,add,set[,respond]; claim sender: iterator-read, seal), executed sequentially on the real functions with fresh stores: "
              "two relays (identical / distinct; allowance 5, 2, 1), one or two relays racing the claim sender (3150 schedules each), three relays sampled every 40th schedule (thorough: all 34650 per family and two relays + claim sender with a separate respond step); "
-             "plus free-running rounds: 16-64 goroutines call the real keeper.HandleRelay with 4-16 distinct requests (identical ones race), optionally with a sealing goroutine, in a child process (thorough: built with -race). "
+             "plus serial multi-session scenarios (relays strictly one at a time for 3-4 sessions of one servicer whose evidence LRU holds 1-3 entries, allowance 2-4, 10-23 operations mixing fresh relays, replays of answered relays, the claim loop's iterator (flush + snapshot) and seals with that snapshot; compared with the cache-layer model and judged against the answers the node gave); plus free-running rounds: 16-64 goroutines call the real keeper.HandleRelay with 4-16 distinct requests (identical ones race), optionally with a sealing goroutine, in a child process (thorough: built with -race). "
              "non-trivial = every schedule; distinct = distinct trace line")
     ctx.trust("signature checks, session generation and hashing inside Relay.Validate run for real; only the schedule is imposed",
               "goleveldb memdb + LRU cache of CacheStorage are exercised as they are")
     ctx.assume("Relay.Validate's evidence reads are treated as one atomic step in the model (under-approximation)")
     if ctx.thorough:
-        ctx.stream("schedules", "c34", "Driver/C34.lean", n=2, timeout=3000, drv_timeout=3000)
+        ctx.stream("schedules", "c34", "Driver/C34.lean", n=2, args=["-serial", 3000], timeout=3000, drv_timeout=3000)
         ctx.stream("free-race", "c34", "Driver/C34.lean", n=0, args=["-free", 24], race=True, timeout=3000)
     else:
-        ctx.stream("schedules", "c34", "Driver/C34.lean", n=1, args=["-free", 3])
+        ctx.stream("schedules", "c34", "Driver/C34.lean", n=1, args=["-free", 3, "-serial", 240])
 
 
 def search(ctx):
